@@ -28,7 +28,7 @@ META = {
                   "strings <= 2 chars, bools and kinds; the comparison-expression normaliser (flatten, order/dedupe, absorb, DNF, settle) is run by "
                   "CrossHair on 8 AST shapes whose atoms carry symbolic integer constants, negation flags and an operator, against a boolean "
                   "evaluator on a symbolic observed value; the full observation-level normaliser on 10 AND/OR/FOLLOWEDBY/WITHIN/REPEATS shapes with "
-                  "symbolic constants, observed values and timestamps against a binding-set evaluator; through the real parser: every pair of 29 "
+                  "symbolic constants, observed values and timestamps against a binding-set evaluator; through the real parser: every pair of 31 "
                   "generated pattern shapes over an atom table is checked for symmetry, reflexivity, soundness on a bounded universe of all "
                   "observation sequences of length <= 3 (values 1..3, 2 instants), and search = pairwise; transitivity over all triples; 17 "
                   "documented rewrites recognised and 8 non-equivalences kept apart; _mask_bytes for all 2^32 x 33 (thorough: also 2^128 x 129) "
@@ -70,12 +70,12 @@ def obligations(tier):
                        bounds="observation shape %d of 10, 3 leaves with symbolic int constants; 3 observations with symbolic values and instants in 0..2" % p))
     for p in range(8):
         obls.append(CH("pairs_sound_symmetric_search_p%d" % p, H, "pairs_sound", t, mode="E1s", functions=FE + FO[5:], stubs=[ANTLR, SEM], env={"VERIF_PART": str(p)},
-                       bounds="pattern shapes s1 %% 8 == %d x 29 shapes x atoms (%s); universe: sequences <= 3 obs, values 1..3, 2 instants" % (
+                       bounds="pattern shapes s1 %% 8 == %d x 31 shapes x atoms (%s); universe: sequences <= 3 obs, values 1..3, 2 instants" % (
                            p, "4x3" if tier == "quick" else "8x8x2")))
     if tier == "thorough":
         for p in range(8):
             obls.append(CH("transitive_p%d" % p, H, "transitive", t, mode="E1s", functions=FE, stubs=[ANTLR], env={"VERIF_PART": str(p)},
-                           bounds="all triples of 29 shapes (first shape %% 8 == %d) x 3x3 atoms" % p))
+                           bounds="all triples of 31 shapes (first shape %% 8 == %d) x 3x3 atoms" % p))
     obls.append(CH("documented_rewrites", H, "rewrites", t, mode="E1s", functions=FE, stubs=[ANTLR], bounds="21 documented rewrites (both directions), 18 non-equivalences (incl. integers beyond 2^53, paths through index 0)"))
     obls.append(CH("documented_rewrites_in_context", H, "rewrites_nested", t, mode="E1s", functions=FE + FT, stubs=[ANTLR],
                    bounds="21 documented rewrites x 19 comparison-/observation-level contexts (one and two holes): C[p] ~ C[q] both directions and by search"))
